@@ -57,9 +57,12 @@ def family_of(name):
     return None, None
 
 
-def common(enc, n, k, nobj, **extra):
+def common(enc, n, k, nobj, space=None, **extra):
     if enc == "Subset":
-        d = dict(ndecn=k, decn_space=numpy.arange(n), decn_space_lower=numpy.repeat(0, k), decn_space_upper=numpy.repeat(n - 1, k), nobj=nobj)
+        # the decision space of a subset problem lists the admissible candidates: all of them in order, or (space=...) a
+        # restricted list in any order - the decision vector holds candidate indices either way
+        sp = numpy.arange(n) if space is None else numpy.asarray(space)
+        d = dict(ndecn=k, decn_space=sp, decn_space_lower=numpy.repeat(int(sp.min()), k), decn_space_upper=numpy.repeat(int(sp.max()), k), nobj=nobj)
     else:
         lo, up = {"Real": (0.0, 1.0), "Integer": (0, 6), "Binary": (0, 1)}[enc]
         d = dict(ndecn=n, decn_space=numpy.stack([numpy.repeat(lo, n), numpy.repeat(up, n)]), decn_space_lower=numpy.repeat(lo, n),
@@ -190,9 +193,15 @@ def case_constructor(ctx, c, classes, fams):
         kwo = {"tag": int(g.integers(100))}
         site = cname
         icls = "%s encoding%s" % (enc, "/default objective transformation" if default_obj else "")
+        space = None
+        if enc == "Subset" and g.random() < 0.4:
+            others = numpy.setdiff1d(numpy.arange(n), members)
+            extra_c = others[g.random(len(others)) < 0.5]
+            space = g.permutation(numpy.r_[members, extra_c]).astype("int64")
+            icls += "/restricted candidate list in arbitrary order"
         ctx.case("%s" % cname, cname, sorted((a, numpy.asarray(b).tobytes()) for a, b in kw.items() if isinstance(b, numpy.ndarray)), members)
         try:
-            prob = cls(**kw, **common(enc, n, k, nobj, obj_wt=wo, obj_trans=(None if default_obj else To), obj_trans_kwargs=(None if default_obj else kwo), nineqcv=nin, ineqcv_wt=wi, ineqcv_trans=Ti,
+            prob = cls(**kw, **common(enc, n, k, nobj, space=space, obj_wt=wo, obj_trans=(None if default_obj else To), obj_trans_kwargs=(None if default_obj else kwo), nineqcv=nin, ineqcv_wt=wi, ineqcv_trans=Ti,
                                       neqcv=neq, eqcv_wt=we, eqcv_trans=Te))
         except Exception as e:
             ctx.raised(cname + " constructor", e); continue
